@@ -56,7 +56,8 @@ def run(ctx):
             rc = A.RawCopy(sub)
             prog = rng.choice([rc, A.Struct(A.Renamed("h", A.Bytes(rng.choice([1, 3]))), A.Renamed("r", rc), A.Renamed("t", A.Tell)),
                                A.Prefixed(A.Alias("Byte"), A.Struct(A.Renamed("r", rc))), A.FixedSized(12, A.Struct(A.Renamed("a", A.Alias("Byte")), A.Renamed("r", rc))),
-                               A.Struct(A.Renamed("r1", rc), A.Renamed("r2", A.RawCopy(A.Alias("Byte"))))])
+                               A.Struct(A.Renamed("r1", rc), A.Renamed("r2", A.RawCopy(A.Alias("Byte")))),
+                               A.Struct(A.Renamed("h", A.Bytes(3)), A.Renamed("r", A.Prefixed(A.Alias("Byte"), A.Struct(A.Renamed("a", A.Alias("Byte")), A.Renamed("f", A.FixedSized(14, A.Struct(A.Renamed("r", rc))))))))])
             con = campaign.realizable(prog)
             comp = None
             if con is not None and i % 2 == 0:
@@ -73,6 +74,7 @@ def run(ctx):
                     hdr = gen.rbytes(rng, V.dec(prog["subs"][0]["sub"]["len"]["v"])) if prog["k"] == "Struct" and prog["subs"][0]["name"] == "h" else b""
                     def wrap(payload, hdr=hdr):
                         if prog is rc: return payload
+                        if prog["k"] == "Struct" and prog["subs"][0]["name"] == "h" and prog["subs"][1]["sub"]["k"] == "Prefixed": return {"h": hdr, "r": {"a": 5, "f": {"r": payload}}}
                         if prog["k"] == "Struct" and prog["subs"][0]["name"] == "h": return {"h": hdr, "r": payload}
                         if prog["k"] == "Prefixed": return {"r": payload}
                         if prog["k"] == "FixedSized": return {"a": 1, "r": payload}
